@@ -1058,6 +1058,10 @@ func genKeySeq(g *h.Gen) {
 			seen[s] = true
 			g.Emit("keyseq %s cap 1 %s -", name, h.Hex([]byte(s)))
 			g.Emit("keyseq %s cap 0 %s -", name, h.Hex([]byte(s)))
+			// the same key typed after one / two / three ESC bytes that the escape timeout has resolved (a history on one screen)
+			if n := len(seen); n%4 == 1 || g.Thorough() {
+				g.Emit("keyseq %s afteresc 1 %s %s", name, h.Hex([]byte(s)), []string{"1b", "1b1b", "1b1b1b"}[n%3])
+			}
 		}
 		for _, s := range []string{ti.PasteStart, ti.PasteEnd} {
 			if s != "" {
@@ -1122,7 +1126,22 @@ func execKeySeq(line string) h.Result {
 		b = append(b, 0x1b)
 	}
 	b = append(append(b, s1...), s2...)
-	obs, all, left := runFeeds(ti, "UTF-8", 80, 24, []feed{{b, expire}})
+	fs := []feed{{b, expire}}
+	nPrefix := 0
+	if kind == "afteresc" {
+		// s2 (one or more ESC bytes) is read and resolved by the escape timeout FIRST; then the key s1 arrives: a history
+		// on one screen — the key must decode as it does on a fresh one (no modifier left over from the resolved ESCs)
+		b = s1
+		_, pre, _ := runFeeds(ti, "UTF-8", 80, 24, []feed{{s2, true}})
+		nPrefix = len(pre)
+		fs = []feed{{s2, true}, {s1, expire}}
+	}
+	obs, all, left := runFeeds(ti, "UTF-8", 80, 24, fs)
+	if kind == "afteresc" {
+		if nPrefix <= len(all) {
+			all = all[nPrefix:]
+		}
+	}
 	res := h.Result{Obs: strings.Join(obs, " "), Nontrivial: true, Tags: []string{"kind:" + strings.SplitN(kind, ":", 2)[0]}}
 	if stale {
 		res.Obs = "SKIP variant-mismatch " + res.Obs
@@ -1151,7 +1170,7 @@ func execKeySeq(line string) h.Result {
 		return k, m, ok
 	}
 	switch {
-	case kind == "cap":
+	case kind == "cap" || kind == "afteresc":
 		s := string(s1)
 		if !expire && extended(s) {
 			break
